@@ -105,6 +105,8 @@ def main():
     for tgt in a.targets:
         modpath, _, fns = tgt.partition(':')
         rel = modpath.replace('.', '/') + '.py'
+        if not os.path.exists(os.path.join(REPO, rel)):
+            rel = modpath.replace('.', '/') + '/__init__.py'
         src = open(os.path.join(REPO, rel)).read()
         tree = ast.parse(src)
         for fn in find_functions(tree, set(fns.split(',')) if fns else None):
